@@ -69,6 +69,7 @@ static inline size_t thread_queue_get_size(const thread_queue_t *p_queue)
 static inline void thread_queue_push_head(thread_queue_t *p_queue,
                                           ABTI_thread *p_thread)
 {
+    ABTI_VERIF_EVENT(25, p_queue, p_thread, 1);
     if (p_queue->num_threads == 0) {
         p_thread->p_prev = p_thread;
         p_thread->p_next = p_thread;
@@ -92,6 +93,7 @@ static inline void thread_queue_push_head(thread_queue_t *p_queue,
 static inline void thread_queue_push_tail(thread_queue_t *p_queue,
                                           ABTI_thread *p_thread)
 {
+    ABTI_VERIF_EVENT(25, p_queue, p_thread, 0);
     if (p_queue->num_threads == 0) {
         p_thread->p_prev = p_thread;
         p_thread->p_next = p_thread;
@@ -116,6 +118,7 @@ static inline ABTI_thread *thread_queue_pop_head(thread_queue_t *p_queue)
 {
     if (p_queue->num_threads > 0) {
         ABTI_thread *p_thread = p_queue->p_head;
+        ABTI_VERIF_EVENT(26, p_queue, p_thread, 1);
         if (p_queue->num_threads == 1) {
             p_queue->p_head = NULL;
             p_queue->p_tail = NULL;
@@ -133,6 +136,7 @@ static inline ABTI_thread *thread_queue_pop_head(thread_queue_t *p_queue)
         ABTD_atomic_release_store_int(&p_thread->is_in_pool, 0);
         return p_thread;
     } else {
+        ABTI_VERIF_EVENT(26, p_queue, 0, 1);
         return NULL;
     }
 }
@@ -141,6 +145,7 @@ static inline ABTI_thread *thread_queue_pop_tail(thread_queue_t *p_queue)
 {
     if (p_queue->num_threads > 0) {
         ABTI_thread *p_thread = p_queue->p_tail;
+        ABTI_VERIF_EVENT(26, p_queue, p_thread, 0);
         if (p_queue->num_threads == 1) {
             p_queue->p_head = NULL;
             p_queue->p_tail = NULL;
@@ -158,6 +163,7 @@ static inline ABTI_thread *thread_queue_pop_tail(thread_queue_t *p_queue)
         ABTD_atomic_release_store_int(&p_thread->is_in_pool, 0);
         return p_thread;
     } else {
+        ABTI_VERIF_EVENT(26, p_queue, 0, 0);
         return NULL;
     }
 }
@@ -169,6 +175,7 @@ ABTU_ret_err static inline int thread_queue_remove(thread_queue_t *p_queue,
     ABTI_CHECK_TRUE(ABTD_atomic_acquire_load_int(&p_thread->is_in_pool) == 1,
                     ABT_ERR_POOL);
 
+    ABTI_VERIF_EVENT(27, p_queue, p_thread, 0);
     if (p_queue->num_threads == 1) {
         p_queue->p_head = NULL;
         p_queue->p_tail = NULL;
